@@ -189,6 +189,18 @@ func c20(c *Ctx) {
 					after, _ := tkt.Marshal()
 					add("Ticket.Marshal(after Decrypt)", after)
 					c.Check(bytes.Equal(before, after), "a ticket re-encodes to the same bytes after it was decrypted", "ticket-marshal-after-decrypt", fmt.Sprintf("%d -> %d bytes", len(before), len(after)), map[string]interface{}{"etype": et})
+					// the decrypted ticket reused inside other messages: additional ticket of a KDC-REQ-BODY / TGS-REQ
+					// (user-to-user, evidence ticket), ticket of a fresh AP-REQ
+					body := messages.KDCReqBody{KDCOptions: types.NewKrbFlags(), Realm: realm, SName: types.PrincipalName{NameType: 2, NameString: []string{"HTTP", "host.test.gokrb5"}},
+						Till: time.Now().UTC().Add(time.Hour).Truncate(time.Second), Nonce: 12345, EType: []int32{et}, AdditionalTickets: []messages.Ticket{tkt}}
+					if bb, err := body.Marshal(); err == nil {
+						add("KDCReqBody.Marshal(additional ticket after Decrypt)", bb)
+						c.Check(bytes.Contains(bb, before), "a decrypted ticket used as an additional ticket goes out as the bytes received", "additional-ticket-after-decrypt", fmt.Sprintf("%d bytes", len(bb)), map[string]interface{}{"etype": et})
+					}
+					tr := messages.TGSReq{KDCReqFields: messages.KDCReqFields{PVNO: 5, MsgType: 12, ReqBody: body}}
+					if tb, err := tr.Marshal(); err == nil {
+						add("TGSReq.Marshal(additional ticket after Decrypt)", tb)
+					}
 				}
 				req := m.req
 				st := service.NewSettings(svc.kt, service.MaxClockSkew(5*time.Minute), service.DecodePAC(false))
